@@ -362,10 +362,10 @@ func run(c *vf.Case) {
 	go func() { defer close(done); body() }()
 	select {
 	case <-done:
-	case <-time.After(60 * time.Second):
+	case <-time.After(20 * time.Second):
 		buf := make([]byte, 1<<20)
 		buf = buf[:runtime.Stack(buf, true)]
-		c.Inconclusive("real-time scenario did not finish within 60 s wall clock:\n%s", trim(string(buf)))
+		c.Inconclusive("real-time scenario did not finish within 20 s wall clock:\n%s", trim(string(buf)))
 		c.ExitResume()
 	}
 }
